@@ -59,7 +59,8 @@ package filter
 // value's type has)
 //@ func filter.filterLength
 //@   never "stick.NewSafeValue(" nosafe
-//@   asserts len: !istype(val, "string") ==> called("stick.Len(val)") && istype(result, "int") && unbox(result, "int") == l
+//@   asserts counted: !istype(val, "string") ==> called("stick.Len(val)")
+//@   asserts len: !istype(val, "string") ==> istype(result, "int") && unbox(result, "int") == l
 //@ func filter.filterLower
 //@   never "stick.NewSafeValue(" nosafe
 //@ func filter.filterMerge
